@@ -172,9 +172,25 @@ def judge(ctx, ast, sp, T, vi, v):
                                e1.cell_desc(ast, sp, vi, v), e1.size(ast) * 10 + e1.vsize(v))
 
 
+ODD_DOCUMENTS = ['', '\n', '# only a comment\n', '---\n', '--- \n...\n', 'null', '~', '[]', '{}', '""']
+
+
 def per_type(ctx, ast, sp, T):
     """Every expression of the grammar is a documented type: building its converter must not fail."""
     from pane.convert import make_converter
+    pane = ctx.pane
+    if sp == (0, 0) and e1.size(ast) <= 2:
+        # texts that hold no document at all, or an empty one: the readers still either return or raise ConvertError
+        for doc in ODD_DOCUMENTS:
+            for name, fn in (('from_yaml', lambda: pane.from_yaml(io.StringIO(doc), T)), ('from_yaml_all', lambda: pane.from_yaml_all(io.StringIO(doc), T))) + \
+                    ((('from_json', lambda: pane.from_json(io.StringIO(doc), T)),) if doc in ('null', '[]', '{}', '""') else ()):
+                out, exc = classify(fn)
+                ctx.res['evals'] += 1
+                ctx.res['transitions'] += 1
+                if out not in ('ok', 'ConvertError') and type(exc).__module__.split('.')[0] not in ('json', 'yaml'):
+                    core.add_violation(ctx.res, {'kind': 'escape', 'exc': out, 'site': core.site_of(exc)},
+                                       f"{name}(<the text {doc!r}>, {grammar.render(ast)}) raised {out}: {core.sstr(exc, 160)}",
+                                       e1.cell_desc(ast, sp, -1, None), e1.size(ast) * 10)
     try:
         make_converter(T)
         ctx.res['transitions'] += 1
